@@ -355,7 +355,10 @@ theorem mergeDicts_mem (self call : List (Str × ArgVal)) (kv : Str × ArgVal) :
 
 /-- **`URLFormatter.format`** is `format_url` on the call's parameters, each falling back on
 the formatter's default when `None` (the extension has no default), with dict arguments
-merged (the call wins); merging anything with a list is refused -/
+merged (the call wins); merging anything with a list is refused.
+(This RESTATES the model's `Formatter.format` in one equation — it is true by unfolding; what
+it says about the code is the model-vs-code correspondence of the `formatter` stream.  A
+subclass overriding `format_arg_value` is not modelled: disclosed in `UNPROVED`.) -/
 theorem formatter_format_spec (self : Formatter) (base_url : Option Str) (path : Option PathArg)
     (args : Option Args) (fragment ext : Option Str) (b : Str)
     (hb : base_url.or self.base_url = some b) :
